@@ -208,6 +208,10 @@ def run_modes(ctx, prop, plan):
             inc, total, ctx.notes.get("inconclusive_runs", [])[:3]))
     ctx.notes["runs"] = total
     ctx.notes["runs_validated"] = total_ok
+    if total_ok * 2 < total and not ctx.violations:
+        # most runs could not be completed: whatever makes them fail is hiding what they would have shown
+        raise Inconclusive("only %d of %d driver runs could be completed and validated: %s" % (
+            total_ok, total, ctx.notes.get("inconclusive_runs", [])[:3]))
     return total_ok
 
 
